@@ -142,7 +142,19 @@ def run(spec, tier, prop, mg, max_paths=400, max_seconds=120.0, timeout_ms=10000
                 continue
             if p.exc is not None:
                 res["exc_paths"] += 1
-                res["status"] = common.INCONCLUSIVE
+                # every case is a legal call: if the REAL library raises the same exception on ordinary floats it is a violation,
+                # otherwise an artefact of the symbolic run (inconclusive)
+                if not res.get("_raise_replayed"):
+                    res["_raise_replayed"] = True
+                    path = common.write_replay(prop, _safe(spec["name"] + "_raises"), replay_tpl.raises_replay(prop, spec, type(p.exc).__name__))
+                    ok, out = common.run_replay(path)
+                    if ok is True:
+                        res["status"] = common.VIOLATION
+                        res["violations"].append({"signature": "%s:raises:%s" % (spec["name"], type(p.exc).__name__), "replay": path,
+                                                  "summary": "`%s` (a legal call) raises %s: %s" % (spec["body"].replace("\n", "; ")[:80], type(p.exc).__name__, str(p.exc)[:120])})
+                        continue
+                if res["status"] != common.VIOLATION:
+                    res["status"] = common.INCONCLUSIVE
                 res["notes"].append("library raised on a path: %s: %s" % (type(p.exc).__name__, str(p.exc)[:300]))
                 continue
             arrs, tens, grads, L, out, env = p.out
